@@ -534,30 +534,37 @@ void h_pits(void)
 #
 # Turn k of the sweep (k = 0 .. n-1) processes the node at position n-1-k of the bottom-up order (reverse iteration).
 #
-# Products.  In the "eq" and "nonneg" variants the two products of the body are abstracted as deterministic functions keyed on their
-# operands (DESIGN 3.4; same encoding as slope_abstraction in spec/graphmodel.py):
+# Floating-point operations.  The two products of the body are abstracted as deterministic functions keyed on their operands
+# (DESIGN 3.4; same encoding as slope_abstraction in spec/graphmodel.py):
 #     area(v) * src(v)         -> sw_mul_local(a, s):  (a, s) == (G_AREA, G_SRC)  =>  result == GLOC
 #     acc(v) * weight(v, r)    -> sw_mul_w(a, w):      (a, w) == (GA, GW[r])      =>  result == GP[r]
-# plus the one-product sign facts that group sweeps.accumulate.mul_facts proves bit-precisely for the IEEE `*`.
-# In the "real" variant (table width 1) both products are the IEEE multiplication (one product per obligation).
-# The additions `+=` are always the IEEE addition.
+# In the "eq" variant (step equation) the additions `x += y` are abstracted the same way,
+#     x + y                    -> sw_add(x, y):        (x, y) == (AX[i], AY[i])   =>  result == AR[i]      (i = 0..REC_W; point REC_W is
+#                                                                                                           the own-contribution point)
+# because the equation needs the code's and the specification's copy of each operation in one obligation, and already ONE duplicated
+# IEEE adder did not finish in 120 s on minisat, cadical, z3 and cvc5 (measured).  In the "nonneg" variant the additions are the IEEE
+# additions (no duplicate needed) and the products carry the one-product sign facts that group sweeps.accumulate.fp_facts proves
+# bit-precisely for the IEEE `*`.
 
 ACC_PRED = SAME_D + r"""
-/* ghost state: arbitrary nodes G, G2; ghost operand/result points of the two product functions */
+/* ghost state: arbitrary nodes G, G2; ghost operand/result points of the abstracted operations */
 size_t G, G2;
-double G_AREA, G_SRC, GLOC;           /* GLOC stands for fl(G_AREA * G_SRC) */
-double GA, GW[REC_W], GP[REC_W];      /* GP[r] stands for fl(GA * GW[r]) */
-_Bool SW_OVF;                         /* ghost flag: some accumulated value that was multiplied by a weight was infinite */
+double G_AREA, G_SRC, GLOC;                       /* GLOC stands for fl(G_AREA * G_SRC) */
+double GA, GW[REC_W], GP[REC_W];                  /* GP[r] stands for fl(GA * GW[r]) */
+double AX[REC_W + 1], AY[REC_W + 1], AR[REC_W + 1]; /* AR[i] stands for fl(AX[i] + AY[i]) */
+_Bool SW_OVF;                                     /* ghost flag: an infinite accumulated value was multiplied by a weight */
 #define REC(x, s) m_receivers[(x) * REC_W + (s)]
 #define RCNT(x) m_receivers_count[(x)]
 #define WGT(x, s) m_receivers_weight[(x) * REC_W + (s)]
 #define TURN_POS(k) (gsize - 1 - (k))                   /* position processed in turn k */
-#define V_K m_dfs_indices[TURN_POS(dfs_k)]              /* node processed in turn dfs_k */
+#define V_AT(k) m_dfs_indices[TURN_POS(k)]              /* node processed in turn k */
+#define V_K V_AT(dfs_k)
 """
 
 
-def acc_mul_contracts(rec_w):
+def acc_op_contracts(rec_w):
     keyed = conj("(a == GA && w == GW[%k]) ==> __CPROVER_return_value == GP[%k]", rec_w)
+    addkey = conj("(x == AX[%k] && y == AY[%k]) ==> __CPROVER_return_value == AR[%k]", rec_w + 1)
     return r"""
 double sw_mul_local(double a, double s)
 __CPROVER_assigns()
@@ -571,23 +578,30 @@ __CPROVER_ensures((a >= 0 && a < INFINITY && w >= 0 && w < INFINITY) ==> __CPROV
 __CPROVER_ensures((!(a < 0) && w >= 0) ==> !(__CPROVER_return_value < 0))
 __CPROVER_ensures(SW_OVF == (__CPROVER_old(SW_OVF) || (isinf(a) != 0)))
 ;
-""" % keyed
+double sw_add(double x, double y)
+__CPROVER_assigns()
+__CPROVER_ensures(%s)
+;
+""" % (keyed, addkey)
 
 
 def acc_ghost_consistent(rec_w):
-    """the ghost points belong to functions satisfying the sign facts, and GP is a function of GW"""
+    """the ghost points belong to functions: equal operands, equal results; and they satisfy the sign facts"""
     parts = ["((G_AREA >= 0 && G_SRC >= 0 && G_AREA < INFINITY && G_SRC < INFINITY) ==> GLOC >= 0)"]
     for k in range(rec_w):
         parts.append("((GA >= 0 && GA < INFINITY && GW[%d] >= 0 && GW[%d] < INFINITY) ==> GP[%d] >= 0)" % (k, k, k))
         parts.append("((!(GA < 0) && GW[%d] >= 0) ==> !(GP[%d] < 0))" % (k, k))
         for j in range(k + 1, rec_w):
             parts.append("(GW[%d] == GW[%d] ==> GP[%d] == GP[%d])" % (k, j, k, j))
+    for k in range(rec_w + 1):
+        for j in range(k + 1, rec_w + 1):
+            parts.append("((AX[%d] == AX[%d] && AY[%d] == AY[%d]) ==> AR[%d] == AR[%d])" % (k, j, k, j, k, j))
     return "(" + " && ".join(parts) + ")"
 
 
 def acc_accessors(mode):
     rng = mode == "nonneg"
-    return SAME_D.replace("#define SAME_D", "/* SAME_D above */ //") * 0 + r"""
+    return r"""
 /* read of the bottom-up order at position p with the order-contract instance at p */
 static inline size_t sw_acc_dfs(const size_t *m_dfs_indices, const size_t *POS, size_t gsize, size_t p)
 {
@@ -627,13 +641,7 @@ static inline double sw_acc_wgt(const double *m_receivers_weight, size_t gsize, 
 
 
 def acc_defs(mode):
-    mul = (r"""
-#define SW_MUL_LOCAL(a, s) ((a) * (s))
-#define SW_MUL_W(a, w) ((a) * (w))
-""" if mode == "real" else r"""
-#define SW_MUL_LOCAL(a, s) sw_mul_local((a), (s))
-#define SW_MUL_W(a, w) sw_mul_w((a), (w))
-""")
+    add = ("#define SW_ADD(x, y) sw_add((x), (y))\n" if mode == "eq" else "#define SW_ADD(x, y) ((x) + (y))\n")
     return r"""
 #define m_receivers(i, j) sw_acc_rec(m_receivers, POS, gsize, (i), (j))
 #define m_receivers_count(i) sw_acc_rcnt(m_receivers_count, gsize, (i))
@@ -641,7 +649,9 @@ def acc_defs(mode):
 #define area(i) sw_acc_in(area, gsize, (i))
 #define src(i) sw_acc_in(src, gsize, (i))
 #define SW_DFS(p) sw_acc_dfs(m_dfs_indices, POS, gsize, (p))
-""" + mul
+#define SW_MUL_LOCAL(a, s) sw_mul_local((a), (s))
+#define SW_MUL_W(a, w) sw_mul_w((a), (w))
+""" + add
 
 
 ACC_VOCAB = [
@@ -649,10 +659,11 @@ ACC_VOCAB = [
     V(r"\bsrc_arr\(", "src("),
 ] + IMPL_VOCAB
 
-# the two products of the body (structural: the operator is replaced by the product macro)
-ACC_MUL_RULES = [
+# the floating-point operations of the body (structural: the operator is replaced by the operation macro)
+ACC_OP_RULES = [
     R(r"m_grid\.nodes_areas\(([^()]*)\) \* src_arr\(([^()]*)\)", r"SW_MUL_LOCAL(m_grid.nodes_areas(\1), src_arr(\2))", 1),
     R(r"acc\.flat\(([^()]*)\) \* m_receivers_weight\(([^()]*)\)", r"SW_MUL_W(acc.flat(\1), m_receivers_weight(\2))", 1),
+    R(r"acc\.flat\((\w+)\) \+= ([^;]*);", r"acc.flat(\1) = SW_ADD(acc.flat(\1), \2);", None),
 ]
 
 ACC_ANCHOR = r"void flow_graph_impl<G, S, flow_graph_fixed_array_tag>::accumulate\(data_array_type& acc,\s*T&& src\) const"
@@ -678,13 +689,20 @@ __CPROVER_requires(G2 < gsize && POS[G2] < gsize && m_dfs_indices[POS[G2]] == G2
 """ % dict(NMAX=NMAX_NODES)
 
 
-def acc_fold(rec_w, node, start, real=False):
-    """left fold over the receiver slots of `node`: add the slot's product when the slot points to G"""
-    e = start
+def acc_points_at(node, r):
+    return "(%d < RCNT(%s) && REC(%s, %d) == G)" % (r, node, node, r)
+
+
+def acc_chain(rec_w, node, start):
+    """values of acc[G] along the receiver slots of `node` (abstract additions): x_0 = start, x_{r+1} = slot r points to G ? AR[r] : x_r.
+    Returns (hypothesis "the ghost addition points are the operands met along the chain", final value)."""
+    x = start
+    hyp = []
     for r in range(rec_w):
-        term = ("%s[%s] * WGT(%s, %d)" % ("acc", node, node, r)) if real else "GP[%d]" % r
-        e = "((%d < RCNT(%s) && REC(%s, %d) == G) ? (%s + %s) : %s)" % (r, node, node, r, e, term, e)
-    return e
+        pt = acc_points_at(node, r)
+        hyp.append("(%s ==> (%s == AX[%d] && GP[%d] == AY[%d]))" % (pt, x, r, r, r))
+        x = "(%s ? AR[%d] : %s)" % (pt, r, x)
+    return "(" + " && ".join(hyp) + ")", x
 
 
 def acc_key(rec_w, node, accval):
@@ -698,18 +716,25 @@ def acc_points(rec_w, node):
 IH_NONNEG = "(!(acc[%s] < 0) && (!SW_OVF ==> acc[%s] >= 0))"
 
 
+def acc_step_clauses(rec_w, mode, vk, old, new, newv):
+    """the per-turn clauses about acc[G]; `old`/`new` = value of acc[G] before/after the turn of node `vk`, `newv` = acc[vk] after it"""
+    hyp, fin = acc_chain(rec_w, vk, old)
+    d = dict(VK=vk, OLD=old, NEW=new, KEY=acc_key(rec_w, vk, newv), HYP=hyp, FIN=fin, POINTS=acc_points(rec_w, vk), W=rec_w)
+    own = "((%(VK)s == G && area[G] == G_AREA && src[G] == G_SRC && %(OLD)s == AX[%(W)d] && GLOC == AY[%(W)d]) ==> SAME_D(%(NEW)s, AR[%(W)d]))" % d
+    other = "((%(VK)s != G && %(KEY)s && %(HYP)s) ==> SAME_D(%(NEW)s, %(FIN)s))" % d
+    untouched = "((%(VK)s != G && !%(POINTS)s) ==> SAME_D(%(NEW)s, %(OLD)s))" % d
+    return own, other, untouched
+
+
 def make_acc_step(rec_w, mode):
-    real = mode == "real"
-    d = dict(FRESH=ACC_FRESH, CONS=acc_ghost_consistent(rec_w),
-             KEY=("1" if real else acc_key(rec_w, "V_K", "acc[V_K]")),
-             FOLD=acc_fold(rec_w, "V_K", "__CPROVER_old(acc[G])", real),
-             POINTS=acc_points(rec_w, "V_K"),
-             LOCKEY=("1" if real else "(area[G] == G_AREA && src[G] == G_SRC)"),
-             LOC=("area[G] * src[G]" if real else "GLOC"),
+    own, other, untouched = acc_step_clauses(rec_w, mode, "V_K", "__CPROVER_old(acc[G])", "acc[G]", "acc[V_K]")
+    d = dict(FRESH=ACC_FRESH, CONS=acc_ghost_consistent(rec_w), OWN=own, OTHER=other, UNTOUCHED=untouched,
              JG=IH_NONNEG % ("G", "G"), JV=IH_NONNEG % ("V_K", "V_K"))
     contract = r"""
 %(FRESH)s
 __CPROVER_requires(dfs_k < gsize)
+/* order-contract instance at the position of this turn */
+__CPROVER_requires(V_K < gsize && POS[V_K] == TURN_POS(dfs_k))
 __CPROVER_requires(%(CONS)s)
 """ % d
     if mode == "nonneg":
@@ -724,48 +749,52 @@ __CPROVER_assigns(__CPROVER_object_whole(acc), SW_OVF)
 __CPROVER_ensures(TURN_POS(dfs_k) < POS[G] ==> SAME_D(acc[G], __CPROVER_old(acc[G])))
 __CPROVER_ensures(TURN_POS(dfs_k) < POS[G2] ==> SAME_D(acc[G2], __CPROVER_old(acc[G2])))
 """ % d
-    if mode != "nonneg":
+    if mode == "eq":
         contract += r"""
 /* C03 step_equation, own turn: the local contribution area * src is added, once; self-receiver slots add nothing */
-__CPROVER_ensures((V_K == G && %(LOCKEY)s) ==> SAME_D(acc[G], __CPROVER_old(acc[G]) + %(LOC)s))
+__CPROVER_ensures(%(OWN)s)
 /* C03 step_equation, turn of another node v: for each receiver slot r of v that points to G, in slot order, acc(v) * weight(v, r) is
  * added (same slot for receiver and weight; acc(v) is v's value after its own contribution, which is its final value) */
-__CPROVER_ensures((V_K != G && %(KEY)s) ==> SAME_D(acc[G], %(FOLD)s))
+__CPROVER_ensures(%(OTHER)s)
 /* ... and nothing else: a node that is not among the receivers of v keeps its value */
-__CPROVER_ensures((V_K != G && !%(POINTS)s) ==> SAME_D(acc[G], __CPROVER_old(acc[G])))
+__CPROVER_ensures(%(UNTOUCHED)s)
 """ % d
     else:
         contract += r"""
 /* C03 nonneg_lower_bound: no accumulated value is negative; after its own turn a node holds at least its local contribution */
 __CPROVER_ensures(%(JG)s)
-__CPROVER_ensures((V_K == G && %(LOCKEY)s) ==> (!(acc[G] < GLOC) && (!SW_OVF ==> acc[G] >= GLOC)))
+__CPROVER_ensures((V_K == G && area[G] == G_AREA && src[G] == G_SRC) ==> (!(acc[G] < GLOC) && (!SW_OVF ==> acc[G] >= GLOC)))
 __CPROVER_ensures(__CPROVER_old(SW_OVF) ==> SW_OVF)
 """ % d
     return Unit(
         name="accumulate_step", file=IMPL_H, anchor=ACC_ANCHOR, inner=ACC_LOOP_HEAD + r"\s*\{",
         sig="void accumulate_step(size_t dfs_k, %s)" % ACC_PARAMS,
-        pre=ACC_PRED + acc_mul_contracts(rec_w) + acc_accessors(mode), defs=acc_defs(mode),
+        pre=ACC_PRED + acc_op_contracts(rec_w) + acc_accessors(mode), defs=acc_defs(mode),
         rules=[
             # reverse iterator over the order: turn dfs_k reads position size-1-dfs_k
             R(r"const auto (\w+) = \*inode_ptr;", r"const size_t \1 = SW_DFS(TURN_POS(dfs_k));", 1),
-        ] + ACC_MUL_RULES + ACC_VOCAB,
+        ] + ACC_OP_RULES + ACC_VOCAB,
         contract=contract,
     )
 
 
+def acc_ghost_init(rec_w):
+    return ("".join("    GW[%d] = nondet_double(); GP[%d] = nondet_double();\n" % (k, k) for k in range(rec_w)) +
+            "".join("    AX[%d] = nondet_double(); AY[%d] = nondet_double(); AR[%d] = nondet_double();\n" % (k, k, k) for k in range(rec_w + 1)) +
+            "    G = nondet_size_t(); G2 = nondet_size_t(); G_AREA = nondet_double(); G_SRC = nondet_double(); GLOC = nondet_double();\n"
+            "    GA = nondet_double(); SW_OVF = nondet_bool();\n")
+
+
 def acc_step_harness(rec_w):
-    init = "".join("    GW[%d] = nondet_double(); GP[%d] = nondet_double();\n" % (k, k) for k in range(rec_w))
     return NONDET + r"""
 void h_accumulate_step(void)
 {
     size_t gsize = nondet_size_t();
     const size_t *m_dfs_indices, *m_receivers, *m_receivers_count, *POS; const double *m_receivers_weight, *area, *src; double *acc;
-    G = nondet_size_t(); G2 = nondet_size_t(); G_AREA = nondet_double(); G_SRC = nondet_double(); GLOC = nondet_double();
-    GA = nondet_double(); SW_OVF = nondet_bool();
 %s
     accumulate_step(nondet_size_t(), %s);
 %s}
-""" % (init, ACC_ARGS, CANARY)
+""" % (acc_ghost_init(rec_w), ACC_ARGS, CANARY)
 
 
 def acc_defines(rec_w):
@@ -774,27 +803,141 @@ def acc_defines(rec_w):
 
 def acc_step_groups(rec_w, tier="quick"):
     gs = []
-    modes = ["eq", "nonneg"] + (["real"] if rec_w == 1 else [])
-    for mode in modes:
+    for mode in ("eq", "nonneg"):
         gs.append(Group(
             name="sweeps.accumulate.step.%s.w%d" % (mode, rec_w), units=[make_acc_step(rec_w, mode)],
             harness=acc_step_harness(rec_w), entry="h_accumulate_step", enforce="accumulate_step",
-            replace=([] if mode == "real" else ["sw_mul_local", "sw_mul_w"]),
+            replace=["sw_mul_local", "sw_mul_w"] + (["sw_add"] if mode == "eq" else []),
             unwindset={("accumulate_step", 0): rec_w + 1}, defines=acc_defines(rec_w),
-            backend="sat", timeout=900, min_obligations=30, tier=tier,
-            clause={"eq": "one turn of the accumulation sweep (node v), products abstracted as deterministic functions of their operands: "
+            backend="sat", timeout=600, min_obligations=30, tier=tier,
+            clause={"eq": "one turn of the accumulation sweep (node v), + and * abstracted as deterministic functions of their operands: "
                           "finality (a node whose turn is over is not written), own contribution area*src added once, each receiver slot r of v "
                           "pointing to a node != v adds acc(v)*weight(v,r) to it in slot order, no other node changes",
-                    "nonneg": "one turn, inputs finite and >= 0: no accumulated value becomes negative (not even NaN unless an infinite value was "
-                              "multiplied), the node of the turn ends at or above its local contribution",
-                    "real": "one turn, IEEE multiplication kept (table width 1): same step equation with the real products"}[mode] +
+                    "nonneg": "one turn, inputs finite and >= 0, IEEE additions: no accumulated value becomes negative (nor NaN unless an infinite "
+                              "value was multiplied), the node of the turn ends at or above its local contribution"}[mode] +
+                   "; receiver table width %d" % rec_w))
+    return gs
+
+
+
+ACC_OUTER_PRE = r"""
+/* ghost history of acc[G]: its value when the sweep starts, and just before / just after one arbitrary observed turn GT
+ * (the turn of node G2) */
+size_t GT;
+double SN_INIT, SN_PRE, SN_POST;
+/* xtensor `a.fill(v)`: element-wise (assumed xtensor semantics); observed at the ghost cells */
+void sw_fill_d(double *a, size_t n, double v)
+__CPROVER_requires(n <= %s)
+__CPROVER_assigns(__CPROVER_object_whole(a))
+__CPROVER_ensures(G < n ==> a[G] == v)
+__CPROVER_ensures(G2 < n ==> a[G2] == v)
+;
+""" % NMAX_NODES
+
+
+def make_acc_outer(rec_w, mode):
+    own, other, untouched = acc_step_clauses(rec_w, mode, "G2", "SN_PRE", "SN_POST", "acc[G2]")
+    turn_inst = "FSL_PRE(V_AT(dfs_k) < gsize && POS[V_AT(dfs_k)] == TURN_POS(dfs_k)); /* order-contract instance at the position of the turn */ "
+    if mode == "nonneg":
+        # DESIGN 3.9: instance of the induction hypothesis at the node of the turn, before any write of the iteration
+        turn_inst += "FSL_PRE(%s); /* IH of `no accumulated value is negative` */ " % (IH_NONNEG % ("V_AT(dfs_k)", "V_AT(dfs_k)"))
+    body = ("{ FSL_GHOST(if (dfs_k == GT) SN_PRE = acc[G];) " + turn_inst +
+            "accumulate_step(dfs_k, %s); FSL_GHOST(if (dfs_k == GT) SN_POST = acc[G];) }" % ACC_ARGS)
+    d = dict(FRESH=ACC_FRESH, CONS=acc_ghost_consistent(rec_w), OWN=own, OTHER=other, UNTOUCHED=untouched,
+             JG=IH_NONNEG % ("G", "G"),
+             LOWER="((area[G] == G_AREA && src[G] == G_SRC) ==> (!(acc[G] < GLOC) && (!SW_OVF ==> acc[G] >= GLOC)))")
+    contract = r"""
+%(FRESH)s
+__CPROVER_requires(%(CONS)s)
+/* the observed turn GT is the turn of node G2 */
+__CPROVER_requires(GT < gsize && POS[G2] == TURN_POS(GT))
+__CPROVER_assigns(__CPROVER_object_whole(acc), SW_OVF, SN_INIT, SN_PRE, SN_POST)
+""" % d
+    inv = r"""
+__CPROVER_assigns(dfs_k, __CPROVER_object_whole(acc), SW_OVF, SN_PRE, SN_POST)
+__CPROVER_loop_invariant(dfs_k <= gsize)
+"""
+    if mode == "eq":
+        contract += r"""
+/* C03 init_zero: the sweep starts from 0 (whatever the array held before) */
+__CPROVER_ensures(SN_INIT == 0)
+/* C03 step_equation for the arbitrary turn GT (node G2), with the FINAL value of acc[G2] as the multiplied value */
+__CPROVER_ensures(%(OWN)s)
+__CPROVER_ensures(%(OTHER)s)
+__CPROVER_ensures(%(UNTOUCHED)s)
+/* C03 sweep_finality: the returned value is the value after the node's own turn; later turns do not change it */
+__CPROVER_ensures(G2 == G ==> SAME_D(acc[G], SN_POST))
+__CPROVER_ensures(TURN_POS(GT) < POS[G] ==> SAME_D(SN_POST, SN_PRE))
+""" % d
+        inv += r"""
+__CPROVER_loop_invariant(dfs_k == 0 ==> acc[G] == 0)
+__CPROVER_loop_invariant(dfs_k > GT ==> %(OWN)s)
+__CPROVER_loop_invariant(dfs_k > GT ==> %(OTHER)s)
+__CPROVER_loop_invariant(dfs_k > GT ==> %(UNTOUCHED)s)
+__CPROVER_loop_invariant((dfs_k > GT && G2 == G) ==> SAME_D(acc[G], SN_POST))
+__CPROVER_loop_invariant((dfs_k > GT && TURN_POS(GT) < POS[G]) ==> SAME_D(SN_POST, SN_PRE))
+""" % d
+    else:
+        contract += r"""
+__CPROVER_requires(!SW_OVF)
+/* C03 nonneg_lower_bound (sources, areas, weights finite and >= 0: instances on read) */
+__CPROVER_ensures(%(JG)s)
+__CPROVER_ensures(%(LOWER)s)
+""" % d
+        inv += r"""
+__CPROVER_loop_invariant(%(JG)s)
+__CPROVER_loop_invariant(dfs_k + POS[G] >= gsize ==> %(LOWER)s)
+""" % d
+    inv += "__CPROVER_decreases(gsize - dfs_k)\n"
+    return Unit(
+        name="accumulate", file=IMPL_H, anchor=ACC_ANCHOR,
+        sig="void accumulate(%s)" % ACC_PARAMS,
+        pre=ACC_OUTER_PRE,
+        rules=[
+            R(r"auto src_arr = xt::broadcast\(std::forward<T>\(src\), m_grid\.shape\(\)\);", "/* glue: src is modelled as the array src[n] */", 1),
+            R(r"acc\.fill\(0\);", "sw_fill_d(acc, gsize, 0);", None),
+            R(r"auto nodes_indices = nodes_indices_bottomup\(\);", "", 1),
+            R(ACC_LOOP_HEAD, "FSL_GHOST(SN_INIT = acc[G];) for (size_t dfs_k = 0; dfs_k < gsize; ++dfs_k)", 1),
+            RB(r"for \(size_t dfs_k = 0; dfs_k < gsize; \+\+dfs_k\)", body),
+        ] + ACC_VOCAB,
+        contract=contract, loops={0: inv},
+    )
+
+
+def acc_outer_harness(rec_w):
+    return NONDET + r"""
+void h_accumulate(void)
+{
+    size_t gsize = nondet_size_t();
+    const size_t *m_dfs_indices, *m_receivers, *m_receivers_count, *POS; const double *m_receivers_weight, *area, *src; double *acc;
+%s    GT = nondet_size_t(); SN_INIT = nondet_double(); SN_PRE = nondet_double(); SN_POST = nondet_double();
+    { double unused[1]; sw_fill_d(unused, 1, 0); } /* keeps the replaced model function referenced (goto-instrument aborts otherwise) */
+    accumulate(%s);
+%s}
+""" % (acc_ghost_init(rec_w), ACC_ARGS, CANARY)
+
+
+def acc_outer_groups(rec_w, tier="quick"):
+    gs = []
+    for mode in ("eq", "nonneg"):
+        gs.append(Group(
+            name="sweeps.accumulate.loop.%s.w%d" % (mode, rec_w), units=[make_acc_step(rec_w, mode), make_acc_outer(rec_w, mode)],
+            harness=acc_outer_harness(rec_w), entry="h_accumulate", enforce="accumulate",
+            replace=["accumulate_step", "sw_fill_d"], loop_contracts=True, defines=acc_defines(rec_w),
+            backend="sat", timeout=600, min_obligations=30, tier=tier,
+            clause={"eq": "whole accumulation sweep (any number of nodes, any order satisfying the order contract, arbitrary previous contents of acc): "
+                          "acc starts from 0; for an arbitrary node G and an arbitrary turn (node v): v == G adds area*src once, v != G adds "
+                          "acc_final(v)*weight(v,r) for each slot r pointing to G in slot order and nothing otherwise; the returned acc[G] is the "
+                          "value after G's own turn, no later turn changes it",
+                    "nonneg": "whole sweep, sources/areas/weights finite and >= 0: no returned value is negative and acc[G] is not below "
+                              "area(G)*src(G) (>= unless an infinite intermediate value was multiplied)"}[mode] +
                    "; receiver table width %d" % rec_w))
     return gs
 
 
 GROUPS = {"C01": tilt_groups()}
 GROUPS["C02"] = GROUPS["C01"]
-GROUPS["C03"] = acc_step_groups(1) + acc_step_groups(2)
+GROUPS["C03"] = acc_step_groups(1) + acc_outer_groups(1) + acc_step_groups(2) + acc_outer_groups(2)
 GROUPS["C19"] = basins_groups() + pits_groups()
 GROUPS["C06"] = donors_groups(2) + donors_groups(4, "thorough") + donors_groups(8, "thorough")
 PROPS = {}
